@@ -100,6 +100,15 @@ CHECKS["C06"] = dict(
           "dispatchers and dtype handling are tied by correspondence + oracles."),
     design="6/C06", technique="Coq proof over R (ring/field identities, scatter pairing lemma) + vm_compute correspondence")
 
+CHECKS["C05"] = dict(
+    text=("Theorems over R about the Gallina model of Solver.poisson (validation order, right-hand side B(h-n) - A d, masking, reduced "
+          "system with renumbering, re-insertion), universally quantified over the sparse solver (a Section parameter with the contract "
+          "'returns a solution of the system it is given'): the result takes exactly the prescribed Dirichlet values; at every other vertex "
+          "A x = B(h - n) for scalar or vector h and any Neumann data; duplicate indices, mismatched lengths and wrong-size h give "
+          "ValueError before any solve. Uniqueness/linearity/affine reproduction and the float32 accuracy are decided by the certificate "
+          "check (implementation output verified against the model's equation inside Coq) and oracles (partial)."),
+    design="6/C05", technique="Coq proof parametric in the solver oracle + in-Coq certificate check of the implementation's solution")
+
 NOT_YET = {}
 
 
